@@ -10,7 +10,10 @@ import (
 )
 
 // heartbeatLoop periodically updates the leadership key to keep the TTL alive.
-func (e *kvElection) heartbeatLoop(ctx context.Context) {
+// It serves the term identified by termToken and ends with it: an instance that is
+// demoted and re-elected within one interval must not keep the old term's loop
+// running beside the new one.
+func (e *kvElection) heartbeatLoop(ctx context.Context, termToken string) {
 	ticker := time.NewTicker(e.cfg.HeartbeatInterval)
 	defer ticker.Stop()
 
@@ -27,7 +30,7 @@ func (e *kvElection) heartbeatLoop(ctx context.Context) {
 		case <-ctx.Done():
 			return
 		case <-ticker.C:
-			if !e.IsLeader() {
+			if !e.IsLeader() || e.Token() != termToken {
 				return
 			}
 
